@@ -223,3 +223,142 @@ pub fn construct<T: Transport>(kind: Kind, t: T) -> Result<AnyDriver<T>> {
 pub fn _err(e: Error) -> String {
     format!("{e:?}")
 }
+
+/// Installs the reference device personality for `kind`.
+pub fn install_personality(kind: Kind) {
+    use crate::devices::*;
+    with(|w| {
+        let guest = u64::from_le_bytes(w.tr.config.get(0..8).and_then(|b| b.try_into().ok()).unwrap_or([0; 8]));
+        w.dev = Some(match kind {
+            Kind::Blk => Box::new(blk::BlkDev::new()) as Box<dyn Personality>,
+            Kind::Console => Box::new(console::ConsoleDev::new()),
+            Kind::Gpu => Box::new(gpu::GpuDev::new()),
+            Kind::Input => {
+                let mut d = events::EventSource::new(0);
+                d.payload = Some(crate::scen::c19::input_event);
+                Box::new(d)
+            }
+            Kind::NetRaw | Kind::Net => Box::new(net::NetDev::new()),
+            Kind::Rng => Box::new(simple::RngDev::new()),
+            Kind::Rtc => {
+                let mut d = simple::RtcDev::new();
+                d.clocks.push(simple::RtcClock { type_: 0, smear: 0, flags: 0, reading: 42 });
+                Box::new(d)
+            }
+            Kind::Socket => Box::new(vsock::VsockDev::new(guest)),
+            Kind::Sound => Box::new(sound::SoundDev::new()),
+            Kind::P9 => Box::new(simple::P9Dev::new()),
+        });
+    });
+}
+
+/// A short usage script touching the feature-gated paths and at least one multi-buffer request;
+/// returns the first error of a call that must succeed against an honest device.
+pub fn light_use<T: Transport>(d: &mut AnyDriver<T>, heavy: bool) -> Result<()> {
+    use virtio_drivers::device::socket::{ConnectionInfo, VsockAddr};
+    match d {
+        AnyDriver::Blk(b) => {
+            let mut buf = [0u8; 512];
+            b.read_blocks(3, &mut buf)?;
+            b.flush()?;
+            if !b.readonly() {
+                b.write_blocks(4, &buf)?;
+            }
+        }
+        AnyDriver::Console(c) => {
+            c.send(b'x')?;
+            c.send_bytes(b"hello")?;
+            let _ = c.size()?;
+            let _ = c.emergency_write(b'!');
+            let _ = c.recv(true)?;
+        }
+        AnyDriver::Gpu(g) => {
+            let _ = g.resolution()?;
+            match g.get_edid(0) {
+                Ok(_) | Err(Error::Unsupported) => {}
+                Err(e) => return Err(e),
+            }
+            if heavy {
+                g.setup_framebuffer()?;
+                g.flush()?;
+                let img = vec![7u8; 64 * 64 * 4];
+                g.setup_cursor(&img, 1, 2, 3, 4)?;
+                g.move_cursor(5, 6)?;
+                g.change_resolution(16, 16)?;
+            }
+        }
+        AnyDriver::Input(i) => {
+            with(|w| {
+                w.personality::<crate::devices::events::EventSource>().budget += 3;
+                w.run_device(8);
+            });
+            let _ = i.pop_pending_event();
+            let _ = i.pop_pending_event();
+        }
+        AnyDriver::NetRaw(n) => {
+            n.send(&[0x55u8; 60])?;
+            if heavy {
+                let mut rx = vec![0u8; 1600];
+                // SAFETY: `rx` outlives the request (completed or abandoned before drop below).
+                let tok = unsafe { n.receive_begin(&mut rx)? };
+                with(|w| {
+                    w.personality::<crate::devices::net::NetDev>().inbound.push_back(vec![1, 2, 3]);
+                    w.drain_device();
+                });
+                // SAFETY: same buffer.
+                unsafe { n.receive_complete(tok, &mut rx)? };
+            }
+        }
+        AnyDriver::Net(n) => {
+            let mut t = n.new_tx_buffer(64);
+            t.packet_mut()[0] = 9;
+            n.send(t)?;
+        }
+        AnyDriver::Rng(r) => {
+            let mut b = [0u8; 16];
+            r.request_entropy(&mut b)?;
+        }
+        AnyDriver::Rtc(r) => {
+            let _ = r.num_clocks()?;
+            let _ = r.read(0)?;
+        }
+        AnyDriver::Socket(s) => {
+            let mut ci = ConnectionInfo::new(VsockAddr { cid: 2, port: 9 }, 1234);
+            ci.buf_alloc = 64;
+            s.connect(&ci)?;
+            s.force_close(&ci)?;
+        }
+        AnyDriver::Sound(s) => {
+            let _ = s.output_streams()?;
+            if heavy {
+                use virtio_drivers::device::sound::{PcmFeatures, PcmFormat, PcmRate};
+                s.pcm_set_params(0, 64, 16, PcmFeatures::empty(), 1, PcmFormat::U8, PcmRate::Rate8000)?;
+                s.pcm_prepare(0)?;
+                s.pcm_start(0)?;
+                s.pcm_xfer(0, &[3u8; 100])?;
+                s.pcm_stop(0)?;
+            }
+        }
+        AnyDriver::P9(p) => {
+            let mut resp = [0u8; 64];
+            let _ = p.request(&[1, 2, 3, 4, 5, 6, 7, 8], &mut resp)?;
+        }
+    }
+    Ok(())
+}
+
+pub fn kind_name(k: Kind) -> &'static str {
+    match k {
+        Kind::Blk => "blk",
+        Kind::Console => "console",
+        Kind::Gpu => "gpu",
+        Kind::Input => "input",
+        Kind::NetRaw => "net-raw",
+        Kind::Net => "net",
+        Kind::Rng => "rng",
+        Kind::Rtc => "rtc",
+        Kind::Socket => "socket",
+        Kind::Sound => "sound",
+        Kind::P9 => "9p",
+    }
+}
